@@ -970,7 +970,7 @@ def _vector_interpolate(base, data):
 
     # pylint: disable=not-an-iterable
     for ind in np.ndindex(*res.shape):
-        res[ind] = base([d[ind] for d in data])
+        res[ind] = base([d[ind] for d in data])[0]
 
     return res
 
@@ -992,7 +992,7 @@ def _make_ifn(base):
         allscalar = all(map(np.isscalar, mdata))
         anyscalar = any(map(np.isscalar, mdata))
         if allscalar:
-            return base(mdata)
+            return base(mdata)[0]
         elif anyscalar:
             shapes = [a.shape for a in mdata if not np.isscalar(a)]
             # Could check they are all the same, but eh
